@@ -250,11 +250,14 @@ def _rel_groupby(maxlen):
         L = len(vec)
         if L == 0:
             continue
-        for gs in itertools.product(glabels[:2], repeat=L):
-            df = pd.DataFrame({"a": pd.Series(vec, dtype="float64"), "g": list(gs)}, index=_index("ints", L))
+        for gs, grep in itertools.product(itertools.product(glabels[:2], repeat=L), ("object", "category")):
+            # grep == "category": the grouping column is categorical with an unused category "w" -- a group without rows
+            gcol = list(gs) if grep == "object" else pd.Categorical(list(gs), categories=glabels)
+            df = pd.DataFrame({"a": pd.Series(vec, dtype="float64"), "g": gcol}, index=_index("ints", L))
+            present = sorted(set(gs)) if grep == "object" else list(glabels)
             for groupby in ("g", ["g"], "callable"):
-                for groups in (None, ["u"], ["u", "v"]):
-                    if groups is not None and not set(groups) <= set(gs):
+                for groups in (None, ["u"], ["u", "v"]) + ((["w"], ["u", "w"]) if grep == "category" else ()):
+                    if groups is not None and not set(groups) <= set(present):
                         continue  # a requested group that is absent from the data: unspecified
                     n += 1
                     got = {}
@@ -263,25 +266,25 @@ def _rel_groupby(maxlen):
                         got["d"] = {k: (list(v.index), [None if (isinstance(x, float) and math.isnan(x)) else x for x in v.tolist()]) for k, v in d.items()}
                         return True
 
-                    gb = (lambda fr: fr.groupby("g")) if groupby == "callable" else groupby
+                    gb = (lambda fr: fr.groupby("g", observed=False)) if groupby == "callable" else groupby
                     schema = pa.DataFrameSchema({"a": pa.Column(float, pa.Check(rec, groupby=gb, groups=groups, ignore_na=False), nullable=True),
-                                                 "g": pa.Column(str)})
+                                                 "g": pa.Column(str) if grep == "object" else pa.Column()})
                     try:
                         with warnings.catch_warnings():
                             warnings.simplefilter("ignore")
                             schema.validate(df, lazy=True)
                     except Exception as e:  # noqa
-                        viol.setdefault(("groupby.runs", f"{type(e).__name__}:{'callable' if groupby == 'callable' else type(groupby).__name__}:groups={groups}"),
+                        viol.setdefault(("groupby.runs", f"{type(e).__name__}:{'callable' if groupby == 'callable' else type(groupby).__name__}:groups={groups}:{grep}"),
                                         f"vec={vec} g={gs}: {str(e)[:200]}")
                         continue
                     want = {}
-                    for k in sorted(set(gs)):
+                    for k in present:
                         if groups is not None and k not in groups:
                             continue
                         sub = df.loc[df["g"] == k, "a"]
                         want[k] = (list(sub.index), [None if (isinstance(x, float) and math.isnan(x)) else x for x in sub.tolist()])
                     if got.get("d") != want:
-                        viol.setdefault(("groupby.exact_groups", f"{'callable' if groupby == 'callable' else type(groupby).__name__}:groups={groups}"),
+                        viol.setdefault(("groupby.exact_groups", f"{'callable' if groupby == 'callable' else type(groupby).__name__}:groups={groups}:{grep}"),
                                         f"vec={vec} g={gs} got={got.get('d')} want={want}")
     return viol, n
 
